@@ -117,22 +117,28 @@ def make_targets(targets):
 
 
 def run_translator(prop, scratch):
-    """Regenerate gen/Generated.v from /repo's source; returns (ok, message)."""
-    gen = os.path.join(COQ, "gen", "Generated.v")
-    tool = os.path.join(scratch, "verifx")
+    """Regenerate coq/gen/Gen_*.v from /repo's source with the stand-alone translator
+    harness/verifx (go/ast only, does not link against /repo): `verifx <repo> <outdir>` writes one
+    Gen_<Name>.v per table group. Files are replaced only when their content changed."""
     src = os.path.join(VERIF, "harness", "verifx")
     if not os.path.isdir(src):
         return True, "no translator"
-    rc, out = run(["go", "build", "-o", tool, "."], cwd=src, env=dict(GOENV, GOFLAGS="-mod=mod", GO111MODULE="off"))
+    tool = os.path.join(scratch, "verifx")
+    outd = os.path.join(scratch, "gen")
+    os.makedirs(outd, exist_ok=True)
+    rc, out = run(["go", "build", "-o", tool, "."], cwd=src, env=dict(GOENV, GO111MODULE="off", GOFLAGS=""))
     if rc != 0:
         return False, "translator build failed:\n" + out
-    rc, out = run([tool, REPO], cwd=scratch)
+    rc, out = run([tool, REPO, outd], cwd=scratch)
     if rc != 0:
         return False, "translator failed:\n" + out
     with Lock(os.path.join(COQ, ".lock")):
-        old = open(gen).read() if os.path.exists(gen) else None
-        if old != out:
-            open(gen, "w").write(out)
+        for f in sorted(glob.glob(os.path.join(outd, "Gen_*.v"))):
+            dst = os.path.join(COQ, "gen", os.path.basename(f))
+            new = open(f).read()
+            old = open(dst).read() if os.path.exists(dst) else None
+            if old != new:
+                open(dst, "w").write(new)
     return True, "ok"
 
 
